@@ -48,6 +48,6 @@ def main(prop, n, seed, plan_tier=None):
     print('total signatures', len(hist))
     if plan_tier:
         opens = [f for f in runner.load_findings(prop) if f.status == 'open']
-        unknown = sum(c for sig, c in hist.items() if sig[0] == 'HARNESS' or not any(f.matches(sample[sig][2]) for f in opens))
+        unknown = sum(c for sig, c in hist.items() if sig == 'HARNESS' or sig[0] == 'HARNESS' or not any(f.matches(sample[sig][2]) for f in opens))
         print('MARGIN property=%s tier=%s violating_runs=%d unlisted=%d of %d' % (prop, plan_tier, sum(hist.values()), unknown, total))
     return 0
